@@ -132,8 +132,33 @@ def run_shard(spec, M):
             M.case(h64(doc))
             pc.compare(doc, "u", k, ID, M, case, compiler=comp)
     else:
+        # a pool of matchers built before any of them is used (one per dialect of the shard): each must go on working with its
+        # own dialect whatever the others have done in the meantime
+        from gherkin.token_matcher import TokenMatcher as _TM2
+        pool = {d: _TM2(d) for d in spec["dialects"]}
         for d in spec["dialects"]:
             run_dialect(d, spec["L"], M)
+        for rnd_ in range(2):
+            for d in (spec["dialects"] if rnd_ == 0 else list(reversed(spec["dialects"]))):
+                sp = dialects.master()[d]
+                want, lines = [], [sp["feature"][0] + ": f", "  " + sp["scenario"][0] + ": s"]
+                for k, role in dialects.step_keywords(sp):
+                    if any(l.strip() == k + "x" for l in lines):
+                        continue
+                    lines.append("    " + k + "x")
+                text = "\n".join(lines) + "\n"
+                o = observe.parse_observed(text, matcher=pool[d])
+                M.count("matcher_pool_documents")
+                case = {"kind": "pool", "dialects": spec["dialects"]}
+                if o.status != "ok":
+                    M.violation("C10.rejected", {"what": "header-less document rejected by a TokenMatcher(%r) that was built together with matchers of other dialects" % d,
+                                                 "errors": o.err_messages()[:2]}, case)
+                    continue
+                got = pc.compare(o.ast, "u", int(o.idgen.get_next_id()), ID, M, case)
+                read = [dialects.expected_step(sp, l.strip())[1] for l in lines[2:]]
+                if got and [s_.get("type") for s_ in got[0]["steps"]] != expected(read):
+                    M.violation("C10.types", {"what": "step types differ from the statement's rule for a matcher that was built together with matchers of other dialects",
+                                              "dialect": d, "got": [s_.get("type") for s_ in got[0]["steps"]], "want": expected(read)}, case)
 
 
 SHARED = {}
@@ -231,7 +256,9 @@ def run_dialect(d, L, M):
 
 
 def replay(case, M):
-    if case["kind"] == "shard":
+    if case["kind"] == "pool":
+        run_shard({"family": "dialects", "dialects": case["dialects"], "L": 1, "seed": 0}, M)
+    elif case["kind"] == "shard":
         run_shard(case["spec"], M)
     elif case["kind"] == "seq":
         check_seq(case["seq"], case["i"], case["j"], M)
